@@ -367,7 +367,7 @@ def unit_oracle(ctx, case, events, log, info):
 
 def unit_cases(ctx):
     ctx.correspondence("segment-fetcher-vs-model")
-    n = ctx.n(700, 7000)
+    n = ctx.n(600, 7000)
     terms, info = [], []
     for i in range(n):
         r = ctx.rng("unit", i)
@@ -539,7 +539,7 @@ def _remaining(fd):
 
 def finder_cases(ctx):
     ctx.correspondence("share-finder-vs-model")
-    n = ctx.n(250, 2500)
+    n = ctx.n(200, 2500)
     terms, info = [], []
     for i in range(n):
         r = ctx.rng("finder", i)
@@ -843,7 +843,7 @@ def grid_cases(ctx):
         data, out, out2 = run_c03_grid_case(case)
         cls, expect = judge_c03_grid_case(ctx, case, data, out, out2)
         ctx.case((os.path.basename(path), out.status, out2.status), kind="corpus")
-    n = ctx.n(110, 1100)
+    n = ctx.n(100, 1100)
     for i in range(n):
         r = ctx.rng("grid", i)
         case = gen_grid_case(r)
